@@ -78,6 +78,18 @@ def sym_nx(L: Logic, name: str, directed=True):
     return g, wf, Probe(name, "digraph" if directed else "ugraph", (N, E))
 
 
+def sym_tagged_dag(L: Logic, name: str, tag="hidden"):
+    """nx.DiGraph whose nodes may carry a boolean attribute `tag`"""
+    N = z3.Function(f"{name}.N", L.Node, L.B)
+    E = z3.Function(f"{name}.E", L.Node, L.Node, L.B)
+    H = z3.Function(f"{name}.has_{tag}", L.Node, L.B)
+    Vv = z3.Function(f"{name}.{tag}", L.Node, L.B)
+    g = VNx(True, lambda x: N(x), lambda a, b: E(a, b), owned=False, nattrs={tag: (lambda x: H(x), lambda x: Vv(x))})
+    wf = [L.forall(2, lambda a, b: L.Implies(E(a, b), L.And(N(a), N(b)))),
+          L.forall(1, lambda a: L.Implies(H(a), N(a)))]
+    return g, wf, Probe(name, "digraph", (N, E, {tag: (H, Vv)}))
+
+
 def sym_pairs(L: Logic, name: str):
     R = z3.Function(f"{name}.R", L.Node, L.Node, L.B)
     return VSet(lambda a, b: R(a, b), arity=2, kind="list", owned=False), [], Probe(name, "pairs", (R,))
@@ -133,7 +145,7 @@ def sym_sigma(L: Logic, name: str):
 
 _REPO = [None]
 
-BUILDERS = {"nodemap": sym_sigma, "expr": sym_expr, "eseq": sym_eseq, "seq": sym_seq, "bool": sym_bool, "graph": sym_graph, "nodeset": sym_nodeset, "node": sym_node, "digraph": sym_nx,
+BUILDERS = {"tagged_dag": sym_tagged_dag, "nodemap": sym_sigma, "expr": sym_expr, "eseq": sym_eseq, "seq": sym_seq, "bool": sym_bool, "graph": sym_graph, "nodeset": sym_nodeset, "node": sym_node, "digraph": sym_nx,
             "ugraph": lambda L, n: sym_nx(L, n, directed=False), "pairs": sym_pairs}
 
 
